@@ -9,6 +9,8 @@ pub mod c05;
 pub mod c06;
 pub mod c07;
 pub mod c08;
+pub mod c09;
+pub mod c16;
 pub mod common;
 
 pub struct Prop {
@@ -28,6 +30,8 @@ pub fn all() -> Vec<Prop> {
         Prop { id: "C06", level: "exploration", run: c06::run, replay: c06::replay },
         Prop { id: "C07", level: "exploration", run: c07::run, replay: c07::replay },
         Prop { id: "C08", level: "exploration", run: c08::run, replay: c08::replay },
+        Prop { id: "C09", level: "exploration", run: c09::run, replay: c09::replay },
+        Prop { id: "C16", level: "fault_enumeration", run: c16::run, replay: c16::replay },
     ]
 }
 
@@ -49,6 +53,7 @@ pub fn run_property(id: &str, tier: Tier, seed: u64) -> i32 {
         eng.extra.insert("harness_error".into(), serde_json::json!(true));
     }
     run_pinned(&p, &mut eng);
+    run_regress(&p, &mut eng);
     eng.finish()
 }
 
@@ -84,4 +89,44 @@ pub fn run_pinned(p: &Prop, eng: &mut Engine) {
             eng.violation("pinned", &k.minimal_input, &format!("pinned input of known finding {} now fails differently: {}", k.key, msg));
         }
     }
+}
+
+/// seconds-long replay tier: every saved case under <verif>/regress/<ID>-*.json (minimal inputs of
+/// fixed findings, inputs that once escaped the quick tier) is an ordinary regression case
+pub fn run_regress(p: &Prop, eng: &mut Engine) {
+    let dir = format!("{}/regress", crate::engine::verif_dir());
+    let mut files: Vec<std::path::PathBuf> = match std::fs::read_dir(&dir) {
+        Ok(rd) => rd.flatten().map(|e| e.path()).filter(|f| f.file_name().and_then(|n| n.to_str()).map(|n| n.starts_with(&format!("{}-", p.id)) && n.ends_with(".json")).unwrap_or(false)).collect(),
+        Err(_) => return,
+    };
+    files.sort();
+    if files.is_empty() {
+        return;
+    }
+    let t0 = std::time::Instant::now();
+    let mut stats = crate::engine::Stats::default();
+    for f in files {
+        let txt = match std::fs::read_to_string(&f) {
+            Ok(t) => t,
+            Err(_) => continue,
+        };
+        let v: Value = match serde_json::from_str(&txt) {
+            Ok(v) => v,
+            Err(_) => continue,
+        };
+        let part = v["part"].as_str().unwrap_or("").to_string();
+        let case = v["case"].clone();
+        let _g = crate::watchdog::publish(p.id, txt.clone(), std::time::Duration::from_secs(120), true);
+        let r = crate::engine::caught(|| (p.replay)(&part, &case));
+        match r {
+            Ok(Some(Ok(mut info))) => {
+                info.nt(true);
+                stats.record(&info, crate::engine::fnv(txt.as_bytes()), || serde_json::json!({"file": f.file_name().unwrap().to_string_lossy()}));
+            }
+            Ok(Some(Err(m))) => eng.violation("regress", &case, &format!("regression case {:?} fails: {}", f.file_name().unwrap(), m)),
+            Ok(None) => eng.note(format!("regression case {:?} could not be replayed", f)),
+            Err(pm) => eng.violation("regress", &case, &format!("regression case {:?} panics: {}", f.file_name().unwrap(), pm)),
+        }
+    }
+    eng.push_part("regress", "saved cases under /verif/regress (minimal inputs of fixed findings and inputs first found by the thorough tier), replayed without the generators; every one counts as non-trivial", stats, false, false, t0);
 }
